@@ -3,11 +3,11 @@
 package main
 
 import (
-	"sort"
 	"bytes"
 	"encoding/binary"
 	"fmt"
 	"reflect"
+	"sort"
 	"strings"
 
 	"github.com/TheManticoreProject/Manticore/network/smb/smb_v10/message"
